@@ -786,6 +786,23 @@ def main():
                 t_c = time.time(); interpreter_modes(ctx)
                 ctx.extra["phase_s"] = {"property_cases": round(t_b - t_a, 1), "shared_object_session": round(t_i - t_b, 1),
                                         "interleave_session": round(t_c - t_i, 1), "interpreter_modes": round(time.time() - t_c, 1)}
+                if tier == "thorough" and not ctx.violations:
+                    # further independent streams under other seeds while the property is cheap (generated cases only
+                    # differ; the enumerations are seed-independent and are what makes the expensive properties expensive)
+                    extra_seeds = []
+                    while (t_b - t_a) * (len(extra_seeds) + 1) < 150 and len(extra_seeds) < 3 and not ctx.violations:
+                        s2 = a.seed + 104729 * (len(extra_seeds) + 1)
+                        ctx3 = Ctx(pid, tier, s2)
+                        fn(ctx3); shared_object_session(ctx3)
+                        ctx.violations += ctx3.violations
+                        ctx.evaluations += ctx3.evaluations
+                        ctx.distinct |= ctx3.distinct
+                        for k, v in ctx3.relational.items():
+                            ctx.relational[k] += v
+                        for k, v in ctx3.dist.items():
+                            ctx.dist[k] += v
+                        extra_seeds.append(s2)
+                    ctx.extra["further_seeds"] = extra_seeds
                 if proof_problems and not ctx.violations and tier == "quick":
                     # a proof obligation or the translation no longer checks and the quick search found no failing
                     # input: spend the thorough tier's case counts, under another seed, before giving up
